@@ -562,7 +562,7 @@ class Mahony:
             # ECF
             omega_mes = np.cross(a, v_a) + np.cross(m, v_m) # Cost function (eqs. 32c and 48a)
             bDot = -self.k_I*omega_mes                   # Estimated change in Gyro bias (eqs.32b and 48c)
-            self.b += bDot * dt                          # Estimated Gyro bias
+            self.b = self.b + bDot * dt                          # Estimated Gyro bias
             Omega = Omega - self.b + self.k_P*omega_mes  # Gyro correction (eq. 48b)
         p = np.array([0.0, *Omega])
         qDot = 0.5*q.product(p)                     # Rate of change of quaternion (eqs. 45 and 48b)
